@@ -62,6 +62,8 @@ fn pool() -> Vec<PM> {
         p(b"\n", Kind::Empty),
         p(b" \n", Kind::Empty),
         p(b"A:B", Kind::Unterminated),
+        p(b"A:B;S 'p\nq';E\n", Kind::EmbeddedNewline),
+        p(b"A:B;S 'p\n", Kind::Unterminated),
     ]
 }
 
